@@ -61,7 +61,7 @@ static void finish(const char *why)
 }
 
 /* ------------------------------------------------------------------ objects */
-struct fdo { struct iv_fd *o; int fd, peer; int exists; int isreg; };
+struct fdo { struct iv_fd *o; int fd, peer; int exists; int isreg; char kind[8]; };
 struct tmo { struct iv_timer *o; int exists; };
 struct tko { struct iv_task *o; int exists; };
 struct evo { struct iv_event *o; int exists; int isreg; };
@@ -176,6 +176,7 @@ static void mk_fd(int i, const char *kind)
 	int sv[2];
 	F[i].exists = 1;
 	F[i].isreg = 0;
+	snprintf(F[i].kind, sizeof(F[i].kind), "%s", kind);
 	F[i].o = malloc(sizeof(struct iv_fd));
 	IV_FD_INIT(F[i].o);
 	if (!strcmp(kind, "bad")) {
@@ -284,7 +285,7 @@ static void one_action(char *act)
 			logf_("RET %d\n", r ? -1 : 0);
 		}
 		if (F[i].isreg && F[i].fd < 900)
-			logf_("FDFLAGS f%d nonblock=%d cloexec=%d\n", i, !!(fcntl(F[i].fd, F_GETFL) & O_NONBLOCK), !!(fcntl(F[i].fd, F_GETFD) & FD_CLOEXEC));
+			logf_("FDFLAGS f%d nonblock=%d cloexec=%d kind=%s\n", i, !!(fcntl(F[i].fd, F_GETFL) & O_NONBLOCK), !!(fcntl(F[i].fd, F_GETFD) & FD_CLOEXEC), F[i].kind);
 	} else if (!strcmp(op, "unreg")) {
 		i = objnum(a1, 'f');
 		if (guard && (!F[i].exists || !iv_fd_registered(F[i].o))) return;
